@@ -258,6 +258,8 @@ class InputOutputControlByIdentifier(BaseService):
                 if remaining_data[payload_size:] == b'\x00' * (len(remaining_data) - payload_size):
                     if tolerate_zero_padding:
                         remaining_data = remaining_data[0:payload_size]
+            if len(remaining_data) > payload_size:
+                raise InvalidResponseException(response, 'Response contains %d bytes of data but the codec expects %d' % (len(remaining_data), payload_size))
             try:
                 response.service_data.decoded_data = codec.decode(remaining_data)
             except Exception as e:
